@@ -510,10 +510,16 @@ def _r5(ctx, md):
                     pos_nodes.add(x.id)
         # fresh-run test nodes: paths through the true edge of `step_offset == 0` are exempt
         fresh_nodes = set()
+        from .c18 import three_val as _tv
         for x in g.nodes:
-            if x.kind == "if" and norm(x.expr).replace(" ", "") == "self.step_offset==0":
-                for b, lab in g.succ[x.id]:
-                    if lab == "true":
+            if x.kind == "if" and x.expr is not None and "step_offset" in norm(x.expr):
+                # the edge taken by a fresh run (step_offset == 0), whatever the spelling of the test
+                fresh = _tv(x.expr, {"@values": {"self.step_offset": 0, "step_offset": 0}})
+                if fresh is None:
+                    continue
+                for e_ in g.succ[x.id]:
+                    b, lab = e_[0], e_[1]
+                    if lab == ("true" if fresh else "false"):
                         fresh_nodes.add(b)
         ok = g.must_pass(g.entry, n.id, pos_nodes | fresh_nodes)
         ctx.check(ok, "R5", md, n.stmt, "XYZWriter.open", n.stmt,
